@@ -9,6 +9,7 @@ TRUSTED = [
     'Coq 8.16.1 kernel + vm_compute (trace replay, refutation witnesses); no native_compute; no axioms',
     'hand-written models coq/Model/Buffer.v, coq/Model/FifoStream.v; trace validation under harness/detsched.py as for C01/C08',
     'hang = the deterministic scheduler finds no enabled thread and no pending timer (real code, virtual primitives)',
+    __import__('harness.scen_lane', fromlist=['LANE_TRUSTED']).LANE_TRUSTED,
 ]
 ASSUME = [
     'a source next() call returns (one step)',
@@ -98,6 +99,7 @@ def parts():
                   make_oracle('buffer'), nontrivial),
         core.Part('fifo', 'harness.scen_stream', 'fifo', 350, 6000, 'DriverFifo', ss.coq_fifo_case,
                   make_oracle('fifo'), nontrivial),
+        __import__('harness.scen_lane', fromlist=['part']).part(120, 2000),
     ]
 
 
